@@ -131,7 +131,8 @@ class SimWorld(object):
     BLOCK_BOUND = 0.25      # virtual seconds slept inside one loop iteration
 
     def __init__(self, watchers=(), arbiter_opts=None, tape=(), start=1000.0,
-                 config_file=None, default_beh=None, mode='daemon'):
+                 config_file=None, default_beh=None, mode='daemon',
+                 periodic=None):
         import circus.process
         import circus.watcher
         import circus.arbiter
@@ -167,6 +168,7 @@ class SimWorld(object):
         self.in_probe = False
         self.on_reply = []
         self.mode = mode
+        self.periodic = periodic       # check_delay of the real callback
         self.exited = False
         self.exit_restarting = None
         self.exit_error = None
@@ -234,7 +236,7 @@ class SimWorld(object):
         self._patch(circus.arbiter, 'Controller', SimController)
 
         self.context = RecordingContext(self)
-        opts = dict(check_delay=-1)
+        opts = dict(check_delay=-1 if not periodic else periodic)
         opts.update(arbiter_opts or {})
         self.config_file = config_file
         if config_file is not None:
@@ -337,6 +339,40 @@ class SimWorld(object):
     def next_timer(self):
         return self.loop._next_timer()
 
+    def periodic_handle(self):
+        c = getattr(self.ctrl, 'caller', None)
+        return getattr(c, '_timeout', None) if c is not None else None
+
+    def next_other_timer(self):
+        """Earliest timer that is not the periodic check's own timer."""
+        ph = self.periodic_handle()
+        best = None
+        for hd in self.loop.pending_timers():
+            if hd is ph:
+                continue
+            if best is None or hd._when < best:
+                best = hd._when
+        return best
+
+    def advance_until(self, cond, deadline):
+        """Let virtual time pass (timers firing) until cond() holds or the
+        clock reaches deadline.  Returns cond()."""
+        while not self.dead:
+            self.run_idle()
+            if cond():
+                return True
+            nt = self.loop._next_timer()
+            kt = self.kernel.next_event_time()
+            cands = [x for x in (nt, kt) if x is not None]
+            if not cands or min(cands) > deadline:
+                break
+            self.loop.set_time(min(cands))
+            self.kernel.apply_due()
+        if not self.dead and self.loop.time() < deadline:
+            self.loop.set_time(deadline)
+            self.run_idle()
+        return cond()
+
     def advance(self, dt):
         if self.dead:
             return
@@ -367,6 +403,8 @@ class SimWorld(object):
         """Run until no ready callback and no timer remain, or until the
         virtual-time budget is used up.  Returns True when quiescent."""
         start = self.loop.time()
+        if self.periodic:
+            return self.advance_until(self.quiescent, start + budget)
         while not self.dead:
             self.run_idle()
             nt = self.loop._next_timer()
@@ -388,8 +426,14 @@ class SimWorld(object):
     def quiescent(self):
         if self.exited:
             return True
-        return (not self.dead and self.loop.is_idle() and
-                self.loop._next_timer() is None)
+        if self.dead or not self.loop.is_idle():
+            return False
+        if self.periodic:
+            # the periodic callback re-arms its timer only after its run
+            # has completed: quiescent iff that timer is the only one left
+            pend = self.loop.pending_timers()
+            return len(pend) == 1 and pend[0] is self.periodic_handle()
+        return self.loop._next_timer() is None
 
     # -- daemon life cycle ---------------------------------------------------
     def start(self, drain=True):
